@@ -1,0 +1,13 @@
+//go:build verif
+
+package functions
+
+// VerifLikeRegexpObserver, when set, is told the regular expression text that the LIKE operator
+// produced for a pattern, right before it is compiled. Only present with the `verif` build tag.
+var VerifLikeRegexpObserver func(pattern, regexpText string)
+
+func verifLikeRegexp(pattern, regexpText string) {
+	if VerifLikeRegexpObserver != nil {
+		VerifLikeRegexpObserver(pattern, regexpText)
+	}
+}
